@@ -29,6 +29,7 @@ func (s *SequentialPopulationEpochExecutor) NextEpoch(ctx context.Context, gener
 	if err != nil {
 		return err
 	}
+	verifObserve("epoch.prepared", population, nil, s.sortedSpecies)
 	err = s.reproduce(ctx, generation, population)
 	if err != nil {
 		return err
@@ -196,6 +197,7 @@ func (p *ParallelPopulationEpochExecutor) NextEpoch(ctx context.Context, generat
 	if err != nil {
 		return err
 	}
+	verifObserve("epoch.prepared", population, nil, p.sequential.sortedSpecies)
 
 	// Do parallel reproduction
 	err = p.reproduce(ctx, generation, population)
@@ -226,9 +228,12 @@ func (p *ParallelPopulationEpochExecutor) reproduce(ctx context.Context, generat
 
 	for _, species := range pop.Species {
 		wg.Add(1)
+		verifSpawn(species.Id)
 		// run in separate GO thread
 		go func(ctx context.Context, sp *Species, generation int, p *Population, sortedSpecies []*Species, resChan chan<- reproductionResult, wg *sync.WaitGroup) {
 			defer wg.Done()
+			verifBegin(sp.Id)
+			defer verifEnd(sp.Id)
 			babies, err := sp.reproduce(ctx, generation, p, sortedSpecies)
 
 			res := reproductionResult{}
@@ -256,6 +261,7 @@ func (p *ParallelPopulationEpochExecutor) reproduce(ctx context.Context, generat
 		}(ctx, species, generation, pop, p.sequential.sortedSpecies, resChan, &wg)
 	}
 
+	verifAwait()
 	// wait for reproduction results
 	wg.Wait()
 	close(resChan)
